@@ -95,6 +95,16 @@ class Plane:
             return self.sim.run_sim(**kw)
 
 
+def rerun_same_simulator(plane, **kw):
+    """run_sim once more on the simulator object of the last Plane.run (the documented run / reset_initial_values / run pattern)"""
+    plane.calls = 0
+    plane.solves = []
+    plane.stale = []
+    with warnings.catch_warnings():
+        warnings.simplefilter('ignore')
+        return plane.sim.run_sim(**kw)
+
+
 def _short(v):
     v = 'absent' if v is None else str(v)
     return v if len(v) < 160 else v[:157] + '...'
